@@ -20,6 +20,10 @@ var jsonBodies = []string{
 	`{"t":"nokey"}`,
 	`{"n":8,"t":"v","bell":"ring\u0007ring","del":"a\u007fb","astral":"tag\udb40\udc01end","sub":{"p":"v\u000bt\u0001","q":{"r":"\u001f"}}}`,
 	`{"n":9,"t":"e","":{"x":1,"":0},"sub":{"":2,"p":3,"q":{"":{"r":4}}}}`, // the empty string is a legal property name
+	`{"n":10,"t":"Apple","tags":["B","a"]}`, // strings whose byte order is not their collation order
+	`{"n":11,"t":"a-b","tags":["a-b","aa"]}`,
+	`{"n":12,"t":"Banana"}`,
+	`{"n":13,"t":"apple"}`,
 	`{"n":6,"t":"c","big":9007199254740993,"dec":1.0000000000000000001,"sub":{"p":3,"q":{"r":12345678901234567890}}}`,
 }
 
